@@ -24,6 +24,8 @@ pub struct ExecResult {
     /// the sequence/history was compared step by step against the reference model
     pub validated: bool,
     pub sample: Option<String>,
+    /// lock nesting observed: (held lock, exclusive, acquired lock, exclusive)
+    pub lock_edges: Vec<(String, bool, String, bool)>,
 }
 
 #[derive(Clone, Debug)]
@@ -85,6 +87,7 @@ pub struct UnitReport {
     pub samples: Vec<String>,
     pub model_states: u64,
     pub wall_s: f64,
+    pub lock_edges: std::collections::BTreeSet<(String, bool, String, bool)>,
 }
 
 struct Queue {
@@ -167,6 +170,11 @@ pub fn explore(unit: &str, bounds: &Bounds, run: RunFn, known: &(dyn Fn(&str) ->
                     r.max_points = r.max_points.max(x.points.len());
                     if x.validated {
                         r.validated += 1;
+                    }
+                    for e in &x.lock_edges {
+                        if !r.lock_edges.contains(e) {
+                            r.lock_edges.insert(e.clone());
+                        }
                     }
                     if let Some(s) = &x.sample {
                         if r.samples.len() < 3 {
